@@ -27,6 +27,11 @@ CLAIMS = {
    "Proof that no output-relevant computation depends on hash-map iteration order or other nondeterminism sources: every `range` over a map (enumerated exhaustively, SSA and AST counts must agree) has only order-insensitive effect kinds or an audited exemption permitting exactly the named kinds; map iterators feed only sorting collectors; no goroutine, select, random source, %p; the clock is confined to mytime.Now and its log/history/status callers; the table invariant behind one exemption (ANCHOR uniform per prefix) is checked on the cmdInfo literals. All obligations discharged on every run (five genuine nondeterminisms found by this rule were repaired by fix: commits).",
    "Trusted: sort/slices/maps.Keys+Sorted deterministic; distinct entries of one map do not alias; library functions not listed as writers do not write through arguments. Error-message text and info lines are outside the property's statement (scripts, warnings, exit status).",
    "DESIGN.md section 4 C16, E3"),
+ "C19": ("other",
+   "structural rules (ordering, who-may-write, call context, recognised arithmetic idiom) on bash's own parse (`declare -f` dump) of bin/newpolicy.sh and the sibling shell scripts; nothing is executed",
+   "Necessary structure of the property decided on every run: the lock descriptor is opened and flock'ed (exclusive, non-blocking) before anything else and `main` is the only top-level command; `current` is written only in handle_success, which is called only on the success branch of the compiler invocation; the rename of `next` precedes the link switch and the link targets $POLICY; the next number is max(POLICY file, link)+1. It does not decide the semantic outcome at each kill point, flock semantics or the arithmetic on strings read at run time.",
+   "Trusted: bash's parser/pretty-printer; documented semantics of rm/ln/mv/flock. Non-shell scripts under bin/ are listed as not analysed.",
+   "DESIGN.md section 4 C19, E8"),
 }
 
 NOT_APPLICABLE = {
